@@ -3,6 +3,6 @@
 # diff of the fix commit, substituted through a build overlay: /repo is not touched) and run the property's quick
 # check; it must report a violation. C08 is skipped (see seedtest_ovl.sh).
 cd /verif
-grep '^fixed:' KNOWN_FINDINGS.txt | sed -E 's/^fixed: property=(C[0-9]+) ([0-9a-f]+) .*/\1 \2/' | grep -v "^C08 " | \
+grep '^fixed:' KNOWN_FINDINGS.txt | sed -E 's/^fixed: property=(C[0-9]+) ([0-9a-f]+) .*/\1 \2/' | \
  { if [ $# -gt 0 ]; then grep -E "^($(echo "$@" | tr ' ' '|')) "; else cat; fi; } | \
  xargs -P "${SEED_JOBS:-3}" -L 1 bash -c 'd=/work/rev-$1; mkdir -p $d; git -C /repo diff $1 $1~1 > $d/patch.diff; r=$(tools/seedtest_ovl.sh $d/patch.diff $0 2>&1 | tail -1 | cut -c1-220); echo "revert $1: $r"; rm -rf $d'
